@@ -269,7 +269,7 @@ WB = mkworld(
 )
 WB_LISTS = [("mb", (1, 2)), ("mb", (4, 1, 3)), ("mb", (1, 5, 8)), ("mb", (2, 6)), ("mb", (1, 7, 2)), ("mb", (9,))]
 WB_FLOWS = [flow_t(meth=2, qb=[1, 3, 2, 4]), flow_t(qb=[3, 1]), flow_t(qb=[], qs=True), flow_t(qb=[1, 1], err=True)]
-WB_RESPS = [resp_t(sb=[3, 2, 1, 4, 1]), resp_t(ss=True)]
+WB_RESPS = [resp_t(sb=[3, 2, 1, 4, 1])]   # a streamed response: directed() and the random driver
 WB_FOPS = [{"f": 1, "present": False, "c": [5, 1]}]
 
 # maps world: directory with  beta, gamma/index.html, index.html, delta/eps ; file 5 is a single-file target,
